@@ -1,12 +1,12 @@
 """C13 - static checks reject exactly the ill-formed programs.
 (S) spec/Static.tla is the verdict function (Stratifiable / Grounded / WellTyped); TLC (spec/MC_Static.tla) enumerates
     the program families itself - (i) every precedence graph over 2 relations and (quick: a seeded sample of / thorough:
-    every one of) the 4^9 graphs over 3 relations with edge labels {none,+,neg,agg}, (ii) every clause shape of 1..3
+    every one, up to renaming the relations, of) the 4^9 graphs over 3 relations with edge labels {none,+,neg,agg}, (ii) every clause shape of 1..3
     literals of a 15-literal alphabet under 7 heads, (iii) generator programs with one defect injected by the glue - and
     prints each program with its verdict.  spec/Driver.tla (life cycle) is model-checked as well.
 (T) every program is rendered and run by the guarded souffle; the recorded life-cycle trace plus the process status and
     the expected verdict form one trace that TLC validates against spec/DriverTrace.tla: accept => status 0 and no error
-    diagnostic; reject => a check point saw errors, status 1 with a diagnostic, nothing evaluated, no output file.
+    diagnostic; reject => status 1 with an error diagnostic, nothing evaluated, no output file.
 A rejected trace is the VIOLATION (unless it carries the signature of a recorded compiler crash)."""
 import json, os, random, shutil
 from .. import build, render, staticgen as sg, drivertrace as dt
@@ -65,9 +65,14 @@ def run(tier, replay=None):
         add(sg.run_static(wd, "enum", res, g2=True, g3_list=ids, g3_both=True, shapes=True))
     else:
         add(sg.run_static(wd, "enum", res, g2=True, shapes=True))
-        step = 4 ** 9 // 16
+        # every 3-relation graph up to renaming of the relations (TLC keeps the least id of each class: ~44 000 of the 4^9) ...
+        step = 4 ** 9 // 8
         for lo in range(0, 4 ** 9, step):
-            add(sg.run_static(wd, "g3_%d" % lo, res, g3_range=(lo, lo + step - 1), timeout=2400))
+            add(sg.run_static(wd, "g3_%d" % lo, res, g3_range=(lo, lo + step - 1), g3_canon=True, timeout=2400))
+        # ... plus a seeded sample of arbitrary ids, so that the order of the declarations varies as well
+        ids = sorted(rng.sample(range(4 ** 9), 12000))
+        for k in range(0, len(ids), 4000):
+            add(sg.run_static(wd, "g3s_%d" % k, res, g3_list=ids[k:k + 4000], timeout=2400))
     for off in range(0, len(variants), 400):
         add(sg.run_static(wd, "gen_%d" % off, res, gen_programs=[v[2] for v in variants[off:off + 400]]), gen_offset=off)
     only = os.environ.get("VERIF_C13_ONLY")      # developer knob for scratch experiments (mutation testing): families to run
